@@ -79,6 +79,13 @@ Theorem C09_shadow_exception_unit : forall fire f a b sc st u,
   eval fire (S f) (EApply (EIdent a) (EIdent b)) sc st = mbind (tick fire) (fun _ => ret (VNum u)) st.
 Proof. exact (apply_ident_ident_unit_lemma num num_un num_bop builtin builtin_apply unit_of unit_static). Qed.
 
+(* Binding a name and then using it: after x = e the name x holds the value e
+   had, and (C09_shadow_builtin) a use of x outside any binding of x is that
+   value -- one poll, nothing re-evaluated. *)
+Theorem C09_assigned_name_is_its_value : forall fire f x e sc st s1 v,
+  eval fire f (EAssign x e) sc st = (s1, Good v) -> get_var x (s_vars s1) = Some v.
+Proof. exact (assign_then_use_lemma num num_un num_bop builtin builtin_apply unit_of unit_static). Qed.
+
 (* _ and ans hold the most recently computed result ... *)
 Theorem C09_ans_on_success : forall fire f e st s v,
   eval_top fire f e st = (s, Good v) ->
@@ -174,6 +181,7 @@ Print Assumptions C09_beta_env.
 Print Assumptions C09_beta_env_parens.
 Print Assumptions C09_shadow_builtin.
 Print Assumptions C09_shadow_exception_unit.
+Print Assumptions C09_assigned_name_is_its_value.
 Print Assumptions C09_ans_on_success.
 Print Assumptions C09_ans_unchanged_on_failure.
 Print Assumptions C09_completed_assignments_survive_failure.
